@@ -343,7 +343,7 @@ def compare_repeat(ctx, A, B, src):
 
 
 def run(ctx):
-    n = 120 if ctx.tier == "quick" else 4000
+    n = 300 if ctx.tier == "quick" else 4000
     if ctx.replay:
         c = ctx.replay["case"]
         if c.get("info", {}).get("mutable_defaults"):
